@@ -211,7 +211,10 @@ func buildHandlers2(h map[string]handler) {
 			if cur.t == opaqueErrType {
 				return tFalse
 			}
-			uw := e.prog.LookupMethod(cur.t, nil, "Unwrap")
+			var uw *ssa.Function
+			if sel := e.prog.MethodSets.MethodSet(cur.t).Lookup(nil, "Unwrap"); sel != nil {
+				uw = e.prog.MethodValue(sel)
+			}
 			if uw == nil || uw.Signature.Results().Len() != 1 {
 				return tFalse
 			}
